@@ -40,7 +40,7 @@ def spectrum_obs(S, sym):
     return o, ok_nonneg, ok_sorted
 
 
-def factor_events(R, a_idx, rng, sym, spectrum=None, herm=False, halves=None):
+def factor_events(R, a_idx, rng, sym, spectrum=None, herm=False, halves=None, only=None):
     """ run factorisations of register a_idx with sampled options; append events to R.ev (results are not registers) """
     import yastn
     from yastn import YastnError
@@ -53,7 +53,7 @@ def factor_events(R, a_idx, rng, sym, spectrum=None, herm=False, halves=None):
         op = rng.choice(kinds)
         if halves is not None:
             la, lb = list(halves[0]), list(halves[1])
-            op = rng.choice(('eigh', 'eigh', 'svd', 'qr'))
+            op = rng.choice(only or ('eigh', 'eigh', 'svd', 'qr', 'eig'))
         elif herm or spectrum is not None:
             la, lb = [0], [1]        # known-spectrum operands are matrices (possibly with fused / extra legs handled by the caller)
             if lr != 2:
@@ -116,7 +116,7 @@ def factor_events(R, a_idx, rng, sym, spectrum=None, herm=False, halves=None):
                     dpos &= bool(np.all(np.abs(d.imag) <= 1e-11 * sc) and np.all(d.real >= -1e-11 * sc))
                 e['verdicts'] = {'recon': bool((rec - ref).norm() <= TOL * nrm), 'isoQ': bool((QQ - yastn.eye(config=a.config, legs=QQ.get_legs()).diag()).norm() <= TOL * max(1, QQ.norm())) if len(QQ.struct.t) else True,
                                  'Rtriangular': tri, 'Rdiag_nonneg': dpos}
-            else:
+            elif op == 'eigh':
                 S, U = yastn.linalg.eigh(a, axes=axes, sU=sg, Uaxis=Lax, which='LR' if rng.random() < 0.5 else 'SR')
                 e['L'] = struct_obs(U, sym)
                 e['R'] = {}
@@ -127,6 +127,37 @@ def factor_events(R, a_idx, rng, sym, spectrum=None, herm=False, halves=None):
                 ref = a.transpose(axes=tuple(la + lb))
                 UU = yastn.tensordot(Um, Um, axes=(tuple(range(nl)), tuple(range(nl))), conj=(1, 0))
                 e['verdicts'] = {'recon': bool((rec - ref).norm() <= TOL * nrm), 'isoU': bool((UU - yastn.eye(config=a.config, legs=UU.get_legs()).diag()).norm() <= TOL * max(1, UU.norm())) if len(UU.struct.t) else True}
+                e['spectrum'] = []
+            elif op == 'eig':
+                # general eigendecomposition a = U S V with V U = 1.  Whether the spectrum of a sector is degenerate is recorded: left and right eigenvectors of a
+                # degenerate subspace are paired arbitrarily by LAPACK and the library only rescales the pairs (known finding)
+                am = a.transpose(axes=tuple(la + lb)).fuse_legs(axes=(tuple(range(len(la))), tuple(range(len(la), len(la) + len(lb)))), mode='hard')
+                e['degenerate'] = False
+                for t_ in am.get_blocks_charge():
+                    w = np.linalg.eigvals(np.asarray(am[t_]))
+                    if len(w) > 1:
+                        gaps = np.abs(w[:, None] - w[None, :]) + np.eye(len(w)) * 1e300
+                        if float(np.min(gaps)) < 1e-6 * max(1.0, float(np.max(np.abs(w)))):
+                            e['degenerate'] = True
+                U, S, V = yastn.linalg.eig(a, axes=axes, sU=sg, nU=nU, Uaxis=Lax, Vaxis=Rax, which=rng.choice(('LM', 'LR', 'SR')))
+                e['L'], e['R'] = struct_obs(U, sym), struct_obs(V, sym)
+                e['S'], _, _ = spectrum_obs(S, sym)
+                Um = U.moveaxis(source=Lax, destination=-1)
+                Vm = V.moveaxis(source=Rax, destination=0)
+                nl, nr = len(la), len(lb)
+                rec = yastn.tensordot(Um @ S, Vm, axes=(nl, 0))
+                ref = a.transpose(axes=tuple(la + lb))
+                def flat(x):      # the two groups may be meta-fused differently (same native legs): contract over the native legs
+                    for _ in range(4):
+                        mf = [i for i in range(x.ndim) if x.mfs[i][0] > 1]
+                        if not mf:
+                            break
+                        x = x.unfuse_legs(axes=tuple(mf))
+                    return x
+                Vf, Uf = flat(Vm), flat(Um)
+                VU = yastn.tensordot(Vf, Uf, axes=(tuple(range(1, Vf.ndim)), tuple(range(Uf.ndim - 1))))
+                e['verdicts'] = {'recon': bool((rec - ref).norm() <= 1e-8 * nrm),
+                                 'biorthogonal_VU_is_identity': bool((VU - yastn.eye(config=a.config, legs=VU.get_legs()).diag()).norm() <= 1e-8 * max(1, VU.norm())) if len(VU.struct.t) else True}
                 e['spectrum'] = []
         except YastnError as ex:
             e['out'] = 'YastnError'
@@ -216,6 +247,43 @@ def herm_program(args):
     return R.trace()
 
 
+def square_program(args):
+    """ generic (non-Hermitian) square operands: legs (l_1 .. l_k, conj(l_1) .. conj(l_k)), zero charge, every allowed block stored, hash-valued integers - the spectrum of
+    every sector is non-degenerate generically; lazily permuted inside the groups, fused hard / meta (both groups identically, as eig / eigh require): eig """
+    sym, seed = args
+    rng = random.Random(seed)
+    k = rng.choice((1, 2, 2, 3))
+    unis = universe_legs(sym, rng, k)
+    legs = [[(t, min(2, u[t]) if k < 3 else 1) for t in sorted(u)][:2] for u in unis]
+    s = [rng.choice((1, -1)) for _ in range(k)]
+    st = init_struct(sym, s + [-x for x in s], legs + legs, rng, density=1.0, dtype='float64' if rng.random() < 0.7 else 'complex128')
+    st['n'] = tuple(0 for _ in T.SYMS[sym])
+    R = Runner(sym, seed, [st])
+    if len(R.obs[0]['ent']) == 0 or len(R.obs[0]['ent']) > 200:
+        return R.trace()
+    halves = (range(k), range(k, 2 * k))
+    factor_events(R, 0, rng, sym, herm=False, halves=halves, only=('eig', 'eig', 'svd'))
+    q = list(range(k))
+    rng.shuffle(q)
+    hp = R.do({'op': 'transpose', 'a': 0, 'p': q + [k + x for x in q]})
+    if hp is not None:
+        factor_events(R, hp, rng, sym, herm=False, halves=halves, only=('eig', 'eig', 'svd'))
+        if k >= 2:
+            hf = R.do({'op': 'fuse', 'a': hp, 'parts': [list(range(k)), list(range(k, 2 * k))], 'mode': rng.choice(('hard', 'meta'))})
+            if hf is not None:
+                factor_events(R, hf, rng, sym, herm=False, halves=([0], [1]), only=('eig', 'eig', 'svd'))
+        if k == 3:
+            # partial, DIFFERENT-LOOKING grouping that eig supports: meta fusion of part of each group, applied to both groups alike or to one of them (same native legs)
+            which = rng.choice(('both', 'left', 'right'))
+            parts = ([[0, 1], [2]] if which in ('both', 'left') else [[0], [1], [2]]) + ([[3, 4], [5]] if which in ('both', 'right') else [[3], [4], [5]])
+            hg = R.do({'op': 'fuse', 'a': hp, 'parts': parts, 'mode': 'meta'})
+            if hg is not None:
+                nl = 2 if which in ('both', 'left') else 3
+                nr = 2 if which in ('both', 'right') else 3
+                factor_events(R, hg, rng, sym, herm=False, halves=(range(nl), range(nl, nl + nr)), only=('eig', 'eig'))
+    return R.trace()
+
+
 def known_program(args):
     """ operands with prescribed integer singular values / eigenvalues per sector (exactly representable), complex or real """
     import yastn
@@ -291,12 +359,20 @@ def main(tier, seed, replay=None):
     jobs = [(SYMLIST[i % 7], seed * 1000151 + i) for i in range(n)]
     kjobs = [(SYMLIST[i % 7], seed * 1000171 + i) for i in range(n // 2)]
     with ProcessPoolExecutor(max_workers=14) as ex:
-        traces = list(ex.map(program, jobs, chunksize=4)) + list(ex.map(known_program, kjobs, chunksize=4)) + list(ex.map(herm_program, kjobs, chunksize=4))
+        traces = list(ex.map(program, jobs, chunksize=4)) + list(ex.map(known_program, kjobs, chunksize=4)) + list(ex.map(herm_program, kjobs, chunksize=4)) + list(ex.map(square_program, kjobs, chunksize=4))
     nev, kinds, rej = report_traces(rep, traces)
+    # eig on a sector with a degenerate spectrum: known finding (matched by signature); anything else about eig stays a violation
+    vio, rep.violations = rep.violations, []
+    for sig, what, payload in vio:
+        ea = payload.get('event_args') or {}
+        if ea.get('op') == 'eig' and ea.get('degenerate'):
+            rep.violation('eig:degenerate-spectrum:%s' % payload.get('sym'), what, payload)
+        else:
+            rep.violations.append((sig, what, payload))
     if not replay:
         from vlib import negative_controls
         def c_verdict(e):
-            if e['op'] in ('svd', 'qr', 'eigh') and e['out'] == 'ok' and isinstance(e.get('verdicts'), dict) and e['verdicts'] and all(e['verdicts'].values()):
+            if e['op'] in ('svd', 'qr', 'eigh', 'eig') and e['out'] == 'ok' and isinstance(e.get('verdicts'), dict) and e['verdicts'] and all(e['verdicts'].values()):
                 k = sorted(e['verdicts'])[0]
                 e['verdicts'][k] = False
                 return True
@@ -305,12 +381,12 @@ def main(tier, seed, replay=None):
                 e['L']['s'] = [-v for v in e['L']['s']]           # factor U with flipped signatures
                 return True
         rep.cov['parts']['negative_controls_rejected'] = negative_controls('TraceTensor', 'TraceTensor.cfg', traces, [('a measured clause is false', c_verdict), ('signatures of U flipped', c_axis)], timeout=900, mem='3g')
-    fe = [e for t in traces for e in t['ev'] if e['op'] in ('svd', 'qr', 'eigh')]
+    fe = [e for t in traces for e in t['ev'] if e['op'] in ('svd', 'qr', 'eigh', 'eig')]
     rep.cov['traces_validated_against_impl'] = len(traces)
     rep.cov['evaluations'] = nev
     rep.cov['distinct_nontrivial'] = sum(1 for e in fe if e['out'] == 'ok' and e['L'].get('raw', {}).get('t'))
     rep.cov['parts'].update({'events_by_op': kinds, 'factorisations': len(fe), 'with_prescribed_spectrum': sum(1 for e in fe if e['spectrum']),
-                             'on_fused_or_lazy_operands': sum(1 for t in traces for i, e in enumerate(t['ev']) if e['op'] in ('svd', 'qr', 'eigh') and e['a'] > 1),
+                             'on_fused_or_lazy_operands': sum(1 for t in traces for i, e in enumerate(t['ev']) if e['op'] in ('svd', 'qr', 'eigh', 'eig') and e['a'] > 1),
                              'tolerance_named_in_check': TOL})
     rep.sample({k: v for k, v in fe[len(fe) // 2].items() if k not in ('L', 'R')})
     rep.assumptions += ['reconstruction, (co-)isometry, ordering and triangularity are floating-point facts measured by the harness at %g (relative); TLC decides structure and spectra' % TOL,
